@@ -57,6 +57,9 @@ Definition clamp_target (t : Z) : Z :=
 Definition rescale_c (t lo hi : Z) : Z :=
   lo + f2i (PrimFloat.mul (PrimFloat.div (i2f t) (i2f RescaleDivisor)) (PrimFloat.sub (i2f hi) (i2f lo))).
 
+(* the steady request for curve value v on a fan with effective limits [lo, hi] (C04) *)
+Definition steady (v lo hi : Z) : Z := rescale_c (clamp_target v) lo hi.
+
 Definition stall_test (avg : f64) : bool :=
   if StallTestStrict then PrimFloat.ltb avg StallThreshold else PrimFloat.leb avg StallThreshold.
 
